@@ -12,6 +12,18 @@ def one_case(prelude, case, views_out, alts_out):
     ffi.cdef(prelude)
     declared = {}
     for d, v in zip(case["decls"], case["views"]):
+        m = d.get("mention")
+        if m:        # an earlier cdef() call that only mentions the tag, with its own packing options
+            try:
+                if m["pack"] == 0:
+                    ffi.cdef(m["src"])
+                elif m["packed_kw"]:
+                    ffi.cdef(m["src"], packed=True)
+                else:
+                    ffi.cdef(m["src"], pack=m["pack"])
+            except Exception as e:
+                declared[v["tag"]] = "cdef(mention): " + type(e).__name__
+                continue
         try:
             if d["pack"] == 0:
                 ffi.cdef(d["src"])
